@@ -700,6 +700,12 @@ def wrapping(E, st, frame, b, t, c, args):
             return mk_int(lo_t, hi_t)
     res, ovf = A.int_binop(op, a, bb, ty)
     lo_t, hi_t = int_range(ty)
+    if A.is_const(a) and A.is_const(bb) and op in ('Add', 'Sub', 'Mul'):
+        # both operands known: the wrapped result is computed exactly
+        m = hi_t - lo_t + 1
+        x = {'Add': a[1] + bb[1], 'Sub': a[1] - bb[1], 'Mul': a[1] * bb[1]}[op]
+        x = (x - lo_t) % m + lo_t
+        return const_int(x)
     if res is None or res == BOT or ovf:
         if res not in (None, BOT) and op in ('Add', 'Sub') and lo_t == 0:
             m = hi_t + 1
@@ -956,7 +962,7 @@ def f_rem_euclid(E, st, frame, b, t, c, args):
     mm = max(abs(m[1]), abs(m[2]))
     nan = a[3] or m[3] or (m[1] <= 0 <= m[2]) or a[1] == -INF or a[2] == INF or a[1] > a[2]
     # closed upper bound: r + |m| can round to |m| for tiny negative r
-    return ('F', 0.0, mm, nan, None)
+    return E.reg(('F', 0.0, mm, nan, A.mkterm('rem_euclid', a[4], m[4] or E._fconst_term(m)) or T('o', E.site(frame, b, 're'))))
 
 
 @model(['is_nan', 'is_finite', 'is_infinite', 'is_sign_negative', 'is_sign_positive'], pred=_float_self)
@@ -971,6 +977,8 @@ def f_pred(E, st, frame, b, t, c, args):
         if c['item'] == 'is_finite':
             if not a[3] and a[1] > -INF and a[2] < INF:
                 return const_int(1)
+            if a[4] is not None:
+                return E.reg(mk_int(0, 1, 0, T('isfin', a[4])))
     return mk_int(0, 1, 0, T('o', E.site(frame, b, 'fp')))
 
 
@@ -1950,6 +1958,25 @@ def _iter_items(v):
     return None
 
 
+def _range_as_iter(E, st, frame, t, v):
+    """a half-open integer Range used as an iterator: (element interval, length[, the elements])"""
+    tyid = arg_ty(E, frame, t, 0)
+    ty = E.types.get(tyid) if tyid is not None else None
+    if ty is None or ty['k'] != 'adt' or ty['name'] not in ('core::ops::Range', 'std::ops::Range', 'core::ops::range::Range'):
+        return v
+    v = st.resolve(E.expand(v))
+    if v == BOT or v[0] != 'A' or len(v[1]) != 2:
+        return v
+    lo, hi = E.scalar(st, v[1][0]), E.scalar(st, v[1][1])
+    if lo[0] != 'I' or hi[0] != 'I':
+        return v
+    ln = mk_int(max(hi[1] - lo[2], 0), max(hi[2] - lo[1], 0))
+    el = mk_int(lo[1], max(hi[2] - 1, lo[1]))
+    if lo[1] == lo[2] and hi[1] == hi[2] and 0 < hi[1] - lo[1] <= 40:
+        return ('O', 'iter', (el, ln, tuple(const_int(i) for i in range(lo[1], hi[1])), 0))
+    return ('O', 'iter', (el, ln))
+
+
 @raw_model(['map', 'filter', 'filter_map', 'enumerate', 'rev', 'skip', 'take', 'zip', 'cloned', 'copied', 'peekable',
             'step_by', 'chain', 'flat_map', 'take_while', 'skip_while', 'inspect', 'by_ref', 'flatten', 'map_while'],
            trait='std::iter::Iterator')
@@ -1960,6 +1987,7 @@ def iter_adaptors(E, frame, b, t, sts, c, quiet):
     cls = E.closure_bodies_in(frame, t)
     for st in sts:
         args = E.arg_vals(st, frame, t)
+        args[0] = _range_as_iter(E, st, frame, t, args[0])
         p = _iter_payload(args[0])
         s2 = st
         if p is None:
@@ -1972,6 +2000,24 @@ def iter_adaptors(E, frame, b, t, sts, c, quiet):
         res = None
         if item in ('map', 'filter_map', 'flat_map', 'map_while') and cls:
             ci, body = cls[0]
+            items = _iter_items(args[0])
+            if item == 'map' and items is not None and len(args[0][2]) > 3:
+                # literal / constant-range source: the closure is applied element by element
+                pos0 = args[0][2][3]
+                outs = []
+                r = BOT
+                for it in items[pos0:]:
+                    s2, ri = E.run_closure_any(frame, b, t, s2, ci, body, quiet, arg_vals=[it])
+                    if ri == BOT:
+                        outs = None
+                        break
+                    outs.append(ri)
+                    r = join(r, E.deep_resolve(s2, ri))
+                if outs is not None:
+                    res = ('O', 'iter', (r if r != BOT else ('T', None, None), const_int(len(outs)), tuple(outs), 0))
+                    E.write_dest(s2, frame, t, res)
+                    out.append(s2)
+                    continue
             if ln[2] == 0:
                 r = BOT
             else:
@@ -2006,6 +2052,11 @@ def iter_adaptors(E, frame, b, t, sts, c, quiet):
                     p2 = _elem_of_seq(E, s2, seq2)
             if p2 is not None:
                 res = ('O', 'iter', (('A', (el, p2[0])), mk_int(min(ln[1], p2[1][1]), min(ln[2], p2[1][2]))))
+                i1, i2 = _iter_items(args[0]), _iter_items(E.expand(args[1]))
+                if i1 is not None and i2 is not None and len(args[0][2]) > 3 and len(E.expand(args[1])[2]) > 3:
+                    r1, r2 = i1[args[0][2][3]:], i2[E.expand(args[1])[2][3]:]
+                    n = min(len(r1), len(r2))
+                    res = ('O', 'iter', (('A', (el, p2[0])), const_int(n), tuple(('A', (x, y)) for x, y in zip(r1[:n], r2[:n])), 0))
         if res is None:
             for ci, body in cls:
                 s2, _ = E.run_closure_any(frame, b, t, s2, ci, body, quiet)
@@ -2094,6 +2145,35 @@ def iter_consumers(E, frame, b, t, sts, c, quiet):
                     res = ('A', ())
             elif item == 'count':
                 res = ln
+            elif item == 'sum':
+                dt = E.types.get(dty) if dty is not None else None
+                if dt is not None and dt['k'] == 'float':
+                    acc = ('F', 0.0, 0.0, False, None)
+                    if items is not None and len(itv[2]) > 3:
+                        for it in items[itv[2][3]:]:
+                            x = E.scalar(s2, it, dty)
+                            acc = A.float_binop('Add', acc, x, dt['bits']) if x[0] == 'F' else None
+                            if acc is None:
+                                break
+                    else:
+                        x = E.scalar(s2, el, dty) if ln[2] > 0 else ('F', 0.0, 0.0, False, None)
+                        if x[0] == 'F' and ln[2] <= 1 << 20 and x[1] <= x[2]:
+                            slack = 1.0 + 1e-9      # accumulated rounding of at most 2^20 additions
+                            lo = min(0.0, ln[2] * x[1] * slack if x[1] < 0 else ln[1] * x[1])
+                            hi = max(0.0, ln[2] * x[2] * slack if x[2] > 0 else ln[1] * x[2])
+                            nan = x[3] or (x[1] == -A.INF and x[2] == A.INF)
+                            acc = ('F', lo, hi, nan, None)
+                        else:
+                            acc = None
+                    if acc is not None:
+                        res = E.reg(('F', acc[1], acc[2], acc[3], T('o', E.site(frame, b, 'sum'))))
+                elif dt is not None and dt['k'] in ('int', 'uint'):
+                    x = E.scalar(s2, el, dty) if ln[2] > 0 else const_int(0)
+                    lo_t, hi_t = int_range(dt)
+                    fits = x[0] == 'I' and min(0, ln[2] * x[1]) >= lo_t and max(0, ln[2] * x[2]) <= hi_t
+                    oblig(E, frame, b, t, fits, 'integer sum may overflow (%s elements of %s)' % (A.show_val(ln), A.show_val(x) if x[0] == 'I' else '?'))
+                    if fits:
+                        res = E.reg(mk_int(min(0, ln[2] * x[1]), max(0, ln[2] * x[2]), 0, T('o', E.site(frame, b, 'sum'))))
             elif item == 'nth' and len(args) > 1:
                 n = E.scalar(s2, args[1], E.types.by_name('usize'))
                 some = ln[2] > 0
@@ -2136,6 +2216,10 @@ def iter_collect(E, st, frame, b, t, c, args):
                 return ('S', E.reg(mk_int(ln[1], min(ln[2] * 4, U63), 0, lt)), mk_int(0, 255), None)
             if ln[0] == 'I' and ln[4] is None and ln[1] != ln[2]:
                 ln = E.reg(mk_int(ln[1], ln[2], 0, lt))
+            items = _iter_items(args[0])
+            if items is not None and len(args[0][2]) > 3:
+                rest = items[args[0][2][3]:]
+                return ('S', const_int(len(rest)), el, tuple(rest))
             return ('S', ln, el, None)
         return ('S', E.reg(mk_int(0, U63, 0, T('len', E.site(frame, b, 'col')))), ('T', E.types.seq_elem(ty), None), None)
     return E.expand(('T', dty, E.site(frame, b, 'col')))
